@@ -58,7 +58,8 @@ CLAIMS = {
             "Abstract interpretation of the generator; the read grammar of every emitted deserialize equals the reading "
             "rules of the reference (loop forms from the element's fixed size / boundedness included), Optional values are "
             "tracked into the constructor, the result is built from what was read; the reader never raises except the "
-            "documented negative-length ValueError and clips every read (C05 re-run), padded strings are cut at the first "
+            "documented negative-length ValueError and clips every read (C05 re-run), a number read as a truth value goes "
+            "through a test with the truth table of != 0, padded strings are cut at the first "
             "0xFF (C04 reader side), unknown enum ordinals are preserved (C14). Carries the open finding F3. Does NOT decide "
             "termination for zero-size elements (degenerate).",
             "Trusted: engines B/C, sa/refs/wire_semantics.py, sa/refs/reader_model.py.",
@@ -133,7 +134,8 @@ CLAIMS = {
             "state under one of two coupling relations (the integer field is the counter in 0..9, or counts freely with the "
             "counter = field mod 10), inductive invariant, and an ownership rule that nothing else stores the state; together: "
             "agreement on every history. Every concrete start class reports as .value the integer it was built with (any "
-            "sign). When no coupling works a violation is reported only with an interpreted request history that departs from "
+            "sign), and from_init_values / from_ping_values / from_value derive the value by the protocol's formula for "
+            "arbitrary integers (zero form on every path). When no coupling works a violation is reported only with an interpreted request history that departs from "
             "start + (n mod 10), otherwise exit 2.",
             "Trusted: engine A/B, sa/refs/sequencer_model.py.",
             "abstract interpretation per operation vs reference model + who-may-write rule",
@@ -188,7 +190,10 @@ CLAIMS = {
             "order-insensitive sink, sorted(), or a local list sorted before use, flow-sensitively; accumulators cleared in "
             "finally; indexing never resolves types) plus an abstract whole-program run of generate() over a 7-directory spec "
             "tree under four directory enumeration orders and two consecutive runs on one instance, into an output directory "
-            "pre-populated with unknown contents: all succeed with identical output templates on every path, sorted() over a "
+            "pre-populated with unknown contents: all succeed with identical output templates on every path; a second run on "
+            "the same instance after the specification was edited writes what a fresh generator writes for the edited tree; "
+            "in protocol.py every path of the main block to the generating call passes through the removal of the generated "
+            "directory (must-pass-through); sorted() over a "
             "set never ties on its key, truncating sinks with explicit (utf-8) encoding, makedirs(exist_ok). Importability: every emitted class of the shape "
             "lattice compiles, binds/imports every name it uses from where it is defined, spec text inside string "
             "literals/docstrings is escaped; in the whole-program output every file compiles, every directory is a package, "
